@@ -805,6 +805,44 @@ func ruleFlushableAlignment(r *Report, rule string) {
 			}
 		}
 		r.Ob(rule, fi.Name+"/flushable-fields-in-role-order", cl.Pos(), ok2, "flushable{sbsBatch, sbsBatchDrops, sbsBatchSnapshots} is filled from one aligned (segments, drops, snapshots) triple in that order")
+		// a working slice that is re-sliced to [:0] and refilled must be COPIED into the literal
+		for _, el := range cl.Elts {
+			kv, ok := el.(*ast.KeyValueExpr)
+			if !ok {
+				continue
+			}
+			v := ast.Unparen(kv.Value)
+			copied := false
+			if c, ok := v.(*ast.CallExpr); ok {
+				copied = true
+				if len(c.Args) >= 1 {
+					v = c.Args[0]
+				}
+			}
+			src := objOf(info, v)
+			if src == nil {
+				continue
+			}
+			reused := false
+			ast.Inspect(fi.Decl.Body, func(m ast.Node) bool {
+				as, ok := m.(*ast.AssignStmt)
+				if !ok {
+					return true
+				}
+				for i, l := range as.Lhs {
+					if objOf(info, l) != src || i >= len(as.Rhs) {
+						continue
+					}
+					if se, ok := ast.Unparen(as.Rhs[i]).(*ast.SliceExpr); ok && objOf(info, se.X) == src {
+						reused = true
+					}
+				}
+				return true
+			})
+			if reused {
+				r.Ob(rule, fi.Name+"/reused-working-slice-copied/"+kv.Key.(*ast.Ident).Name, kv.Pos(), copied, "the working slice "+src.Name()+" is truncated with [:0] and refilled for the next group, so the flushable must hold a copy (slices.Clone); an alias would make an earlier group see a later group's entries")
+			}
+		}
 		return true
 	})
 	if nlit < 1 || len(triples) < 1 {
